@@ -723,7 +723,11 @@ class C19(core.Check):
         kind = corruption if corruption is not None else ('none' if rng.random() < .25 else rng.choice(B_CORRUPTIONS))
         enc = rng.choice(['utf-8', 'utf-8', 'latin-1'])
         if kind == 'wrong-password':
-            pw = rng.choice([pw + 'x', pw[:-1], pw + ':', ':' + pw])
+            # the last two: compatibility look-alikes (full-width first character, U+FB01 for 'fi') - different
+            # strings under NFC, the only normalisation RFC 7617 allows the server to apply
+            pw = rng.choice([pw + 'x', pw[:-1], pw + ':', ':' + pw,
+                             (chr(ord(pw[0]) + 0xFEE0) + pw[1:]) if pw and 0x21 <= ord(pw[0]) <= 0x7e else pw + 'x',
+                             pw.replace('i', '\u2170', 1) if 'i' in pw else pw + '\uff01'])
         elif kind == 'unknown-user':
             user = rng.choice(['mallory', 'Alice', ' alice', ''])
         elif kind == 'empty-password':
